@@ -40,6 +40,9 @@ type sched struct {
 	notified map[int]bool
 	waitH    map[string]int
 	late     map[string]bool
+	// yield points this driver does not stop at (TestReplay: StoreConc.tla's step "advance" runs from the head walk to
+	// setHeight.afterCAS; the point setHeight.afterLoad inside it belongs to HeightSub.tla's grain)
+	skip map[string]bool
 }
 
 // leaving: proc is about to continue from point (called with s.mu held)
@@ -75,7 +78,7 @@ func (s *sched) hook(ctx context.Context, point string, args ...uint64) {
 	if point == "wait.afterCheck" && len(args) > 0 {
 		s.waitH[proc] = int(args[0])
 	}
-	if s.pass || (s.passR && proc != "W") {
+	if s.pass || (s.passR && proc != "W") || s.skip[point] {
 		s.leaving(proc, point)
 		s.mu.Unlock()
 		return
@@ -253,6 +256,7 @@ func runSchedule(t *testing.T, id int, c map[string]any, tw, rw *mbt.Writer) {
 		_ = st.Append(bg, chain.At(1))
 		synctest.Wait()
 		sc := newSched()
+		sc.skip = map[string]bool{"setHeight.afterLoad": true}
 		sc.probe = func() map[int]bool {
 			out := map[int]bool{}
 			x := context.WithValue(bg, procKey{}, "X")
